@@ -192,7 +192,8 @@ class Event:
     where: str
     data: object = None
     func: str = ""
-    frame: int = 0  # id of the innermost function activation that produced the event
+    frame: int = 0  # id of the activation of `func`
+    inner: str = ""  # the innermost function (a private helper of `func`, or `func` itself)
 
 
 class Choices:
@@ -247,6 +248,7 @@ class Machine:
         self.case_vars: dict[str, bool] = {}
         self.trace_calls: list[str] = []
         self.frame_ids: list[int] = []
+        self.frame_funcs: list = []
         self.frame_counter = 0
 
     # ------------------------------------------------------------ helpers
@@ -258,7 +260,16 @@ class Machine:
         where = ""
         if fi is not None and node is not None:
             where = f"{fi.module.relpath}:{getattr(node, 'lineno', 0)}"
-        self.events.append(Event(kind, detail, where, data, fi.qualname if fi is not None else "", self.frame_ids[-1] if self.frame_ids else 0))
+        # events are attributed to the innermost *public* activation (a method/function whose name does not start with a
+        # single underscore): private helpers are implementation detail, and extracting one must not rename a finding
+        inner = fi.qualname if fi is not None else ""
+        func, frame = inner, (self.frame_ids[-1] if self.frame_ids else 0)
+        for f_, id_ in zip(reversed(self.frame_funcs), reversed(self.frame_ids)):
+            nm = f_.name
+            if not nm.startswith("_") or (nm.startswith("__") and nm.endswith("__")):
+                func, frame = f_.qualname, id_
+                break
+        self.events.append(Event(kind, detail, where, data, func, frame, inner))
 
     def new_obj(self, name: str, ci: ClassInfo | None, slots: dict | None = None):
         self.heap[name] = dict(slots or {})
@@ -399,6 +410,7 @@ class Machine:
         self.trace_calls.append(fi.qualname)
         self.frame_counter += 1
         self.frame_ids.append(self.frame_counter)
+        self.frame_funcs.append(fi)
         is_gen = fi.name != "step" and any(isinstance(n, (ast.Yield, ast.YieldFrom)) for n in _walk_fn(fi.node))
         if is_gen:
             env["__yields__"] = []
@@ -410,6 +422,7 @@ class Machine:
         finally:
             self.depth -= 1
             self.frame_ids.pop()
+            self.frame_funcs.pop()
         if is_gen:
             return env["__yields__"]  # a generator helper, evaluated eagerly: the values it yields, in order
         return r
@@ -962,6 +975,15 @@ class Machine:
                 return Opaque("arith")
         if isinstance(a, FreshAtoms) and isinstance(e.op, ast.Add):
             return self.atoms_extend_value(a, b)
+        if isinstance(e.op, (ast.Add, ast.Sub)):
+            # symbolic counters (lengths, particle numbers): linear combinations stay exact
+            ca, cb = self.as_count(a), self.as_count(b)
+            if ca is not None and cb is not None and (isinstance(a, V) or isinstance(b, V)):
+                d = dict(ca)
+                sign = 1 if isinstance(e.op, ast.Add) else -1
+                for k, c in cb:
+                    d[k] = d.get(k, 0) + sign * c
+                return V(("count", tuple(sorted(_clean(d).items()))))
         return Opaque("arith")
 
     def e_Compare(self, e, env, fi):
@@ -1237,7 +1259,37 @@ class Machine:
                 return NONE
             if fv.name == "copy":
                 return list(fv.lst)
-            return Opaque("list." + fv.name)
+            try:
+                if fv.name == "clear":
+                    fv.lst.clear()
+                    return NONE
+                if fv.name == "pop":
+                    if not fv.lst:
+                        raise SimRaise("IndexError: pop from empty list")
+                    return fv.lst.pop(*[a for a in args[:1] if isinstance(a, int)])
+                if fv.name == "insert" and len(args) == 2 and isinstance(args[0], int):
+                    fv.lst.insert(args[0], args[1])
+                    return NONE
+                if fv.name == "reverse":
+                    fv.lst.reverse()
+                    return NONE
+                if fv.name == "count" and args:
+                    return sum(1 for x in fv.lst if x is args[0] or x == args[0])
+                if fv.name == "index" and args:
+                    for i_, x in enumerate(fv.lst):
+                        if x is args[0] or x == args[0]:
+                            return i_
+                    raise SimRaise("ValueError: not in list")
+                if fv.name == "remove" and args:
+                    for i_, x in enumerate(fv.lst):
+                        if x is args[0] or x == args[0]:
+                            del fv.lst[i_]
+                            return NONE
+                    raise SimRaise("ValueError: not in list")
+            except TypeError:
+                pass
+            # a tracked list changed or queried in a way the model does not follow: no verdict may rest on it
+            raise SimUnsupported(f"{fi.qualname}: list method `{fv.name}` on a tracked list is not modelled")
         if isinstance(fv, _SetMethod):
             try:
                 if fv.name == "add" and args:
@@ -1246,9 +1298,14 @@ class Machine:
                 if fv.name == "discard" and args:
                     fv.st.s.discard(args[0])
                     return NONE
+                if fv.name == "clear":
+                    fv.st.s.clear()
+                    return NONE
+                if fv.name == "copy":
+                    return Opaque("set.copy", True)
             except TypeError:
                 pass
-            return Opaque("set." + fv.name, True)
+            raise SimUnsupported(f"{fi.qualname}: set method `{fv.name}` on a tracked set is not modelled")
         if isinstance(fv, _DictMethod):
             if fv.name == "copy":
                 return dict(fv.d)
@@ -1263,7 +1320,27 @@ class Machine:
                     return fv.d.get(args[0], args[1] if len(args) > 1 else NONE)
                 except TypeError:
                     return Opaque("dict.get")
-            return Opaque("dict." + fv.name)
+            if fv.name == "setdefault" and args:
+                try:
+                    return fv.d.setdefault(args[0], args[1] if len(args) > 1 else NONE)
+                except TypeError:
+                    return Opaque("dict.setdefault")
+            if fv.name == "pop" and args:
+                try:
+                    if args[0] in fv.d:
+                        return fv.d.pop(args[0])
+                    if len(args) > 1:
+                        return args[1]
+                    raise SimRaise("KeyError")
+                except TypeError:
+                    return Opaque("dict.pop")
+            if fv.name == "update" and len(args) == 1 and isinstance(args[0], dict) and not kwargs:
+                fv.d.update(args[0])
+                return NONE
+            if fv.name == "clear":
+                fv.d.clear()
+                return NONE
+            raise SimUnsupported(f"{fi.qualname}: dict method `{fv.name}` on a tracked dict is not modelled")
         if isinstance(fv, UserCallable):
             self.log("user-call", fv.what, e, fi)
             return Opaque("user:" + fv.what)
